@@ -57,7 +57,7 @@ CHECKS = {
     note=sysnote(""),
     technique="TLA+ system spec (PSRun.tla) model-checked by TLC + trace validation of recorded runs (PSRunTrace.tla)", design="DESIGN.md §4 C14"),
  "C15": dict(level="model_checking",
-    text="PARTIAL: the hierarchical model is decided with HGMSplit.tla (split loop with a nondeterministic BIC/partition oracle: labels are a partition, K <= cap, accepted splits have both children >= min_points, small clusters never split, predict in [0,K)); every terminal behaviour is replayed into the real HierarchicalGaussianMixture with GaussianMixture scripted from the oracle, and the split sequence of real fits on generated data (10 data kinds x 9 weight kinds, normalize on/off, caps as the sampler sets them) is validated by TLC against HGMTrace.tla. Integer sample weights = replication is decided relationally for GaussianMixture ('full' and 'diag'): GMMPair.tla couples fit(X, k) and fit(repeat(X, k)) in lock-step at the grain of one EM iteration (same picks, same parameters and lower bound at 1e-9, same convergence decision on exact ranks, same fitted model, predictions and BIC) and TLC validates the recorded pairs. The remaining EM mixture invariants (weights, symmetry, PSD, mean in bounding box) are MONITORED on every real fit and escalated only when gross, on clearly well-posed input and reproducible; tied/spherical excluded; the replication coupling is not claimed for the hierarchical model (its BIC ignores weights by design).",
+    text="PARTIAL: the hierarchical model is decided with HGMSplit.tla (split loop with a nondeterministic BIC/partition oracle: labels are a partition, K <= cap, accepted splits have both children >= min_points, small clusters never split, predict in [0,K)); the oracle is a function of the cluster (state variable `oracle`, invariant OracleIsFunction), and object histories fit -> predict -> refit are part of the model (action Refit); every terminal behaviour is replayed into the real HierarchicalGaussianMixture with GaussianMixture replaced by a content-addressed, order-free fake that answers from the oracle (two of three replays into an object that was already fitted and queried), comparing outcomes (K, the labelling as a partition up to a relabelling of the clusters, accepted splits, prediction ranges, centre queries) and not the protocol of mixture calls; for real fits on generated data (10 data kinds x 9 weight kinds, two-level hierarchies, tiny-weight groups, normalize on/off, caps as the sampler sets them) the observed oracle is handed to TLC, HGMTrace.tla runs the specification on it and the outcomes are compared (inconclusive when the code never computed a value the specification needs). Integer sample weights = replication is decided relationally for GaussianMixture ('full' and 'diag'): GMMPair.tla couples fit(X, k) and fit(repeat(X, k)) in lock-step at the grain of one EM iteration (same picks, same parameters and lower bound at 1e-9, same convergence decision on exact ranks, same fitted model, predictions and BIC) and TLC validates the recorded pairs. The remaining EM mixture invariants (weights, symmetry, PSD, mean in bounding box) are MONITORED on every real fit and escalated only when gross, on clearly well-posed input and reproducible; tied/spherical excluded; the replication coupling is not claimed for the hierarchical model (its BIC ignores weights by design).",
     note="Trusted: TLC; scipy's multivariate normal; monitoring of the numerical EM routine is not a decision by the model.",
     technique="TLA+ specs (HGMSplit.tla, HGMTrace.tla) model-checked by TLC; scripted replays and trace validation of real fits; monitored predicates for EM", design="DESIGN.md §4 C15"),
  "C16": dict(
@@ -75,7 +75,7 @@ CHECKS = {
     note=sysnote("Covering-array strength is what is measured, not the full product."),
     technique="TLA+ specs (Config.tla, PSRun.tla); covering-array runs of the implementation validated by TLC", design="DESIGN.md §4 C18"),
  "C19": dict(level="model_checking",
-    text="PARTIAL (relational trace validation). StudentPair.tla is the ECME loop of fit_mvstud at the grain of one iteration, self-composed under g(x) = S P x + t (per-coordinate scalings in [1e-6, 1e6], translations bounded by conditioning, coordinate permutations); paired observed fits (namespace proxies, no hooks; every observed fit is bit-identical to the unobserved one) on Gaussian, t(1-5), lognormal, contaminated, duplicated, correlated and unit-cube data (d 1-8, n >= 4d) are validated by TLC against the coupling relation, the loop's control flow, the step definitions and the well-posedness clauses (finite location inside the bounding box, symmetric positive-definite scale, dof in (0, inf]), with condition-aware rounding tolerances and near-ties classified; ModeStatistics constructions are validated for the dof fallback, inverse and Cholesky sentence. On the pinned tree only initialisation, the inf-return path, well-posedness and ModeStatistics are exercised: the known finding optnu:inf-branch-despite-root makes the ECME body dead code (the body coupling is demonstrated against out/c19_fix.diff). Parameter recovery from large t-samples is an ensemble-statistics claim and is not claimed.",
+    text="PARTIAL (relational trace validation). StudentPair.tla is the ECME loop of fit_mvstud at the grain of one iteration, self-composed under g(x) = S P x + t (per-coordinate scalings in [1e-6, 1e6], translations bounded by conditioning, coordinate permutations); paired observed fits (namespace proxies, no hooks; every observed fit is bit-identical to the unobserved one) on Gaussian, t(1-5), lognormal, contaminated, duplicated, correlated and unit-cube data (d 1-8, n >= 4d) are validated by TLC against the coupling relation, the loop's control flow, the step definitions and the well-posedness clauses (finite location inside the bounding box, symmetric positive-definite scale, dof in (0, inf]), with condition-aware rounding tolerances and near-ties classified (the outcome-level clauses - returned triple well-posed and equivariant, ModeStatistics clauses - decide the property; failures of step-level clauses alone are counted as deviations from the specification's step structure); n up to 1e5 points per fit with offsets up to 1e5 widths; ModeStatistics constructions are validated for the dof fallback, inverse and Cholesky sentence. On the pinned tree only initialisation, the inf-return path, well-posedness and ModeStatistics are exercised: the known finding optnu:inf-branch-despite-root makes the ECME body dead code (the body coupling is demonstrated against out/c19_fix.diff). Parameter recovery from large t-samples is an ensemble-statistics claim and is not claimed.",
     note="Trusted: TLC; numpy/scipy linear algebra and special functions; that the coupling relation is inductive in real arithmetic is stated in the spec header, not machine-checked (TLC has no reals); tolerances are measured on the pinned code (worst observed <= 4% of tolerance).",
     technique="TLA+ spec (StudentPair.tla) of the coupled fits; relational trace validation by TLC of observed paired fits", design="DESIGN.md §8.9 / §4 C19"),
  "C20": dict(level="model_checking",
